@@ -89,6 +89,12 @@ func TestC07(t *testing.T) {
 		}
 		d := hx.GenDerived(t, base, steps)
 		in := d.Input(t)
+		// now and then the frame has an earlier life that touched its data columns (observed afterwards)
+		if steps > 1 && len(in.Cols) > 0 && rapid.IntRange(0, 5).Draw(t, "history") == 0 {
+			var hist hx.History
+			d.QF, in, hist = hx.GenHistory(t, d.QF, in, true)
+			d.Route = append(d.Route, hist.String())
+		}
 		custom := rapid.IntRange(0, 2).Draw(t, "customctx") == 0
 		want := rapid.SampledFrom([]hx.Kind{hx.KInt, hx.KFloat, hx.KBool, hx.KString, hx.KEnum}).Draw(t, "want")
 		expr := hx.GenExprOfKind(t, in, want, rapid.IntRange(0, 3).Draw(t, "depth"), custom)
